@@ -123,11 +123,24 @@ class Impl:
     """The real coordinator + future driven by model-syntax op tokens, with the
     C17 oracle evaluated on the implementation's own answers."""
 
-    def __init__(self, env, real_locks=False):
+    def __init__(self, env, real_locks=False, sched_ns=None):
+        from s3transfer import futures as _futures
         from s3transfer.futures import TransferCoordinator, TransferFuture
         from s3transfer import exceptions
         self.ex = exceptions
-        self.c = TransferCoordinator()
+        self.sched_mode = sched_ns is not None
+        if sched_ns is not None:
+            # the coordinator creates its locks / event from the scheduler's shim:
+            # every Lock.acquire / release and Event.set / wait is a yield point
+            real_locks = True
+            saved = _futures.threading
+            _futures.threading = sched_ns
+            try:
+                self.c = TransferCoordinator()
+            finally:
+                _futures.threading = saved
+        else:
+            self.c = TransferCoordinator()
         self.f = TransferFuture(coordinator=self.c)
         self.real_locks = real_locks
         if not real_locks:
@@ -194,7 +207,7 @@ class Impl:
             f.meta
             return 'st:' + STATUS.get(c.status, '?' + str(c.status))
         if p[0] == 'result':
-            if self.real_locks and top and not c._done_event.is_set():
+            if self.real_locks and not self.sched_mode and top and not c._done_event.is_set():
                 return 'blocked'        # with the genuine event the caller would simply wait
             try:
                 v = f.result()
